@@ -435,9 +435,9 @@ def run_shard(spec, seed, tier):
     mod = sys.modules[__name__]
     res = ShardResult()
     if tier == "quick":
-        hyp.search(res, st_case(25), simple.make_body(mod), seed, 300)
+        hyp.search(res, st_case(25), simple.make_body(mod), seed, 800)
     else:
-        hyp.search(res, st_case(40), simple.make_body(mod), seed, 3000)
+        hyp.search(res, st_case(40), simple.make_body(mod), seed, 10000)
     return res
 
 
